@@ -246,7 +246,11 @@ def u_faults(W, sk):
     from flodym.data_reader import CSVParameterReader
 
     rng = W.rng
-    dims = make_dims(W, rng.choice([2, 3]), allow_single=False)
+    # single-item dimensions included (their column may be given, too); at least two entries in the array
+    for _ in range(50):
+        dims = make_dims(W, rng.choice([2, 3]), allow_single=True)
+        if dims.total_size >= 2:
+            break
     x = make_array(W, dims, strided=False)
     df = long_table(x).sample(frac=1.0, random_state=rng.randrange(10**6)).reset_index(drop=True)
     n = len(df)
@@ -254,7 +258,11 @@ def u_faults(W, sk):
     fault = sk["fault"]
     expect_error = True
     want = np.array(x.values, copy=True)
-    d0 = dims.dim_list[0]
+    # the dimension that gets the unknown item: any, also a single-item one; the dropped column: a multi-item one
+    d0 = rng.choice(list(dims.dim_list))
+    if fault == "column_missing":
+        d0 = rng.choice([d for d in dims.dim_list if len(d.items) > 1])
+    W.inputs["fault_dimension"] = d0.name
     unknown = 1999 if d0.dtype is int else "Atlantis"
     i = rng.randrange(n)
 
